@@ -14,7 +14,7 @@ import (
 func init() {
 	register(&propDef{
 		id:      "C24",
-		explain: "Structural necessary conditions of 'range requests yield exactly the requested bytes or a proper refusal': (E10) on every acyclic path of ParseByteRange (decided in the zone abstract domain, with the post-condition 'ParseUint returns a non-negative value when its error is nil'), every success return satisfies 0 <= startPos <= endPos < contentLength; (R2) in the FS handler a ParseByteRange error leads, on every path, to the reader being closed and a 416 answer; success leads to UpdateByteRange and SetContentRange being called with the parsed positions and to status 206; a failed UpdateByteRange closes the reader; (R3) not-modified and HEAD branches give the reader back (decrement / close) before returning; (R-pool) a pooled file reader is re-armed before it goes back to its pool: every field that UpdateByteRange sets and Read/WriteTo consult is re-assigned by Close on every path; (R-enc) every assignment of Content-Encoding in the FS handler is control-dependent on the opened file's own compressed flag (fasthttp may decline to compress a file although the request negotiated it); (R-fresh) an on-disk compressed copy that already existed is opened only after its modification time was compared with the original's, unless the same path has just written it; (R-bound) a reader that serves the window [startPos, endPos) of a file through ReadAt never asks for more than the window holds: on every path to every ReadAt call - from the function entry, or from the head of the enclosing loop with the loop variables unconstrained, so the bound has to be re-established in every iteration - the length of the buffer handed over is at most endPos minus the offset handed over (zone domain). Not decided: the bytes served, compressed variants, date comparison to the second.",
+		explain: "Structural necessary conditions of 'range requests yield exactly the requested bytes or a proper refusal': (E10) on every acyclic path of ParseByteRange (decided in the zone abstract domain, with the post-condition 'ParseUint returns a non-negative value when its error is nil'), every success return satisfies 0 <= startPos <= endPos < contentLength; (R2) in the FS handler a ParseByteRange error leads, on every path, to the reader being closed and a 416 answer; success leads to UpdateByteRange and SetContentRange being called with the parsed positions and to status 206; a failed UpdateByteRange closes the reader; (R3) not-modified and HEAD branches give the reader back (decrement / close) before returning; (R-pool) a pooled file reader is re-armed before it goes back to its pool: every field that UpdateByteRange sets and Read/WriteTo consult is re-assigned by Close on every path; (R-enc) every assignment of Content-Encoding in the FS handler is control-dependent on the opened file's own compressed flag (fasthttp may decline to compress a file although the request negotiated it); (R-fresh) an on-disk compressed copy that already existed is opened only after its modification time was compared with the original's, unless the same path has just written it; (R-stamp) where a created file is stamped with the original's modification time (os.Chtimes), the stamp is reached only after that file was closed - a later write would reset it; (R-bound) a reader that serves the window [startPos, endPos) of a file through ReadAt never asks for more than the window holds: on every path to every ReadAt call - from the function entry, or from the head of the enclosing loop with the loop variables unconstrained, so the bound has to be re-established in every iteration - the length of the buffer handed over is at most endPos minus the offset handed over (zone domain). Not decided: the bytes served, compressed variants, date comparison to the second.",
 		run:     runC24,
 	})
 }
@@ -250,6 +250,7 @@ func runC24(p *Prog, r *Report) {
 	rangeBoundedReads(p, r)
 	encodingFollowsFile(p, r)
 	compressedCopyIsFresh(p, r)
+	stampAfterLastWrite(p, r)
 }
 
 // dependsOnModTime: the value is computed from a ModTime() result.
@@ -519,4 +520,52 @@ func argLabel(c *ssa.Call) string {
 		return g
 	}
 	return c.Call.Args[1].Name()
+}
+
+// stampAfterLastWrite (R-stamp): the on-disk compressed copy carries the original's modification time - that is
+// what Last-Modified, If-Modified-Since and both staleness comparisons (R-fresh) read. The time is stamped on the
+// temporary file with os.Chtimes; any later write resets it to "now". In every function that stamps a file it
+// created (os.CreateTemp / os.Create) the Chtimes call is reached only after that file was closed.
+func stampAfterLastWrite(p *Prog, r *Report) {
+	n := 0
+	for _, fn := range p.funcsIn("") {
+		var stamps []ssa.Instruction
+		var created []ssa.Value
+		for _, b := range fn.Blocks {
+			for _, in := range b.Instrs {
+				c, ok := in.(*ssa.Call)
+				if !ok || c.Call.StaticCallee() == nil || c.Call.StaticCallee().Pkg == nil || c.Call.StaticCallee().Pkg.Pkg.Path() != "os" {
+					continue
+				}
+				switch c.Call.StaticCallee().Name() {
+				case "Chtimes":
+					stamps = append(stamps, in)
+				case "CreateTemp", "Create", "OpenFile":
+					created = append(created, c)
+				}
+			}
+		}
+		if len(stamps) == 0 || len(created) == 0 {
+			continue
+		}
+		closes := func(i ssa.Instruction) bool {
+			c, ok := i.(ssa.CallInstruction)
+			if !ok || c.Common().StaticCallee() == nil || c.Common().StaticCallee().Name() != "Close" || len(c.Common().Args) == 0 {
+				return false
+			}
+			for _, cr := range created {
+				if derivesFromValue(c.Common().Args[0], cr) {
+					return true
+				}
+			}
+			return false
+		}
+		for _, st := range stamps {
+			n++
+			hit, path := reachAvoiding(fn, nil, func(i ssa.Instruction) bool { return i == st }, closes, nil)
+			r.Check("R-stamp", funcName(fn)+": the modification time is stamped on the created file only after the file was closed", hit == nil, p.Pos(st.Pos()),
+				"os.Chtimes is reachable before the created file is closed: the data written afterwards resets the modification time to now, so the compressed copy announces the compression time as Last-Modified (If-Modified-Since with the file's real time gets 200) and looks newer than a later version of the file that carries an older time", blocksString(p, path)...)
+		}
+	}
+	r.Floor("R-stamp", "files stamped with the original's modification time", n, 1)
 }
